@@ -340,6 +340,7 @@ package corebgp
 //@ func UpdateDecoder.decodePathAttrs (s, t, b, hasNLRI) returns (err)
 //@   local attrsSeen #0 attrsBitmap
 //@   local me #0 error
+//@   local attrType #0 uint8
 //@   requires s.paFn != nil
 //@   ghost b0 = b
 //@   ghostvar ipos int = 0
@@ -349,6 +350,9 @@ package corebgp
 //@   ghostvar allNil bool = true
 //@   ghostvar overrun bool = false
 //@   ghostvar dupMP bool = false
+//@   ghostvar dupSeen bool = false
+//@   at call isSet#0 after set dupSeen = result && (attrType == 14 || attrType == 15)
+//@   loop#0 invariant [repeated_mp_attribute_aborts_the_decoding] !dupSeen
 //@   ghostvar cbNotif bool = false
 //@   ghostvar cbT intarray = emptyArr()
 //@   ghostvar cbV intarray = emptyArr()
